@@ -161,6 +161,7 @@ class Report:
 
     def __init__(self, prop, tier, level='model_checking'):
         self.prop, self.tier, self.level = prop, tier, level
+        shutil.rmtree(f'{V}/replays/{prop}', ignore_errors=True)  # replay files belong to the current run only
         self.known = load_known(prop)
         self.hit_known = {}
         self.violations = []
